@@ -14,11 +14,19 @@ from .dataflow import is_mark
 from .loader import AnalysisError, ClassInfo, FuncInfo, own_nodes, src
 
 MUT_METHODS = {"append", "extend", "insert", "pop", "remove", "clear", "sort", "reverse", "update", "add", "discard", "setdefault", "popitem", "fill", "resize", "put"}
-FRESH_CALLS = {"deepcopy", "copy", "list", "dict", "set", "tuple", "sorted", "reversed", "asarray", "array", "zeros", "ones", "arange", "str", "int", "float",
+FRESH_CALLS = {"deepcopy", "copy", "list", "dict", "set", "tuple", "sorted", "reversed", "array", "zeros", "ones", "arange", "str", "int", "float",
                "range", "enumerate", "zip", "len", "sum", "min", "max", "abs"}
 
 CONTAINER_ATTRS = {"transitions", "bond_descriptors", "repeat_bonds", "end_bonds", "repeat_tokens", "end_tokens", "_elements", "elements",
                    "_molecules", "atoms", "repeat_bond_token_idx", "end_bond_token_idx"}
+
+ALIAS_CALLS = {"asarray", "asanyarray", "ascontiguousarray", "ravel", "reshape", "view", "squeeze"}
+
+
+def _call_name(c):
+    f = c.func
+    return f.attr if isinstance(f, ast.Attribute) else getattr(f, "id", None)
+
 
 Effect = Tuple[str, Tuple[str, ...]]
 
@@ -32,81 +40,162 @@ class Effects:
         self._solve()
 
     # ------------------------------------------------------------------ roots
-    def roots(self, fi: FuncInfo, e, at: int, depth: int = 0) -> List[Effect]:
-        """Parameter-rooted objects an expression may denote (empty = fresh / unknown-fresh)."""
-        flow = self.eng.flow(fi)
-        try:
-            t = flow.expand(e, at, depth=10)
-        except AnalysisError:
+    def roots(self, fi: FuncInfo, e, at: int, path: Tuple[str, ...] = (), depth: int = 10) -> List[Effect]:
+        """Parameter-rooted objects the expression `e` (as written, evaluated at CFG node `at`) may denote,
+        each with the access path leading to it.  Empty = fresh."""
+        if depth <= 0 or len(path) > 10:
             return []
-        return self._roots_term(fi, t, ())
-
-    def _roots_term(self, fi: FuncInfo, t, path: Tuple[str, ...]) -> List[Effect]:
-        if isinstance(t, ast.Attribute):
-            return self._roots_term(fi, t.value, (t.attr,) + path)
-        if isinstance(t, ast.Subscript):
-            if isinstance(t.slice, ast.Slice):
-                return []  # a slice of a list is a fresh list (of shared elements: first level only)
-            return self._roots_term(fi, t.value, ("[]",) + path)
-        if isinstance(t, ast.Starred):
-            return self._roots_term(fi, t.value, path)
-        if isinstance(t, ast.IfExp):
-            return self._roots_term(fi, t.body, path) + self._roots_term(fi, t.orelse, path)
-        if isinstance(t, ast.BoolOp):
+        R = self.roots
+        if isinstance(e, ast.Attribute):
+            return R(fi, e.value, at, (e.attr,) + path, depth)
+        if isinstance(e, ast.Subscript):
+            if isinstance(e.slice, ast.Slice):
+                # a slice is a fresh list of shared elements
+                if path and path[0] == "[]":
+                    return R(fi, e.value, at, path, depth)
+                return []
+            return R(fi, e.value, at, ("[]",) + path, depth)
+        if isinstance(e, ast.Starred):
+            return R(fi, e.value, at, path, depth)
+        if isinstance(e, ast.IfExp):
+            return R(fi, e.body, at, path, depth) + R(fi, e.orelse, at, path, depth)
+        if isinstance(e, ast.BoolOp):
             out = []
-            for v in t.values:
-                out += self._roots_term(fi, v, path)
+            for v in e.values:
+                out += R(fi, v, at, path, depth)
             return out
-        if isinstance(t, ast.Name):
-            name = t.id
-            f = fi
-            while f is not None:
-                if name in f.params:
-                    return [(self._param_key(f, fi, name), path)]
-                flow = self.eng.flow(f)
-                if flow.is_local(name) and f is not fi:
-                    # closure variable that is a local of the enclosing function: resolve there (all definitions)
-                    out = []
-                    for d in flow.defs:
-                        if d.name == name and d.kind == "assign":
-                            out += [(self._param_key2(f, fi, r[0]), r[1] + path) for r in self._roots_term(f, flow.expand(d.value, d.nid, depth=8), ())]
-                    return out
-                f = f.parent
-            return []  # global / builtin / module
-        if isinstance(t, ast.Call):
-            if is_mark(t):
-                nm = t.func.id[1:]
-                if nm == "phi":
-                    out = []
-                    for a in t.args:
-                        out += self._roots_term(fi, a, path)
-                    return out
-                if nm in ("elem",):
-                    return self._roots_term(fi, t.args[0], ("[]",) + path) if t.args else []
-                if nm == "unpack":
-                    return self._roots_term(fi, t.args[0], ("[]",) + path) if t.args else []
-                return []
-            f = t.func
+        if isinstance(e, ast.NamedExpr):
+            return R(fi, e.value, at, path, depth)
+        if isinstance(e, (ast.List, ast.Tuple, ast.Set)):
+            if path and path[0] == "[]":
+                out = []
+                for x in e.elts:
+                    out += R(fi, x, at, path[1:], depth - 1)
+                return out
+            return []
+        if isinstance(e, ast.Dict):
+            if path and path[0] == "[]":
+                out = []
+                for x in list(e.keys) + list(e.values):
+                    if x is not None:
+                        out += R(fi, x, at, path[1:], depth - 1)
+                return out
+            return []
+        if isinstance(e, ast.BinOp):
+            if path and path[0] == "[]":  # xs + ys: fresh list of shared elements
+                return R(fi, e.left, at, path, depth) + R(fi, e.right, at, path, depth)
+            return []
+        if isinstance(e, ast.Name):
+            return self._roots_name(fi, e.id, at, path, depth)
+        if isinstance(e, ast.Call):
+            f = e.func
             fname = f.attr if isinstance(f, ast.Attribute) else getattr(f, "id", None)
-            if fname in FRESH_CALLS:
-                # copy.copy / list(): fresh container of shared elements
-                if fname in ("copy", "list", "sorted", "reversed", "tuple") and t.args and path and path[0] == "[]":
-                    return self._roots_term(fi, t.args[0], path)
+            if fname in ("asarray", "asanyarray", "ascontiguousarray", "ravel", "reshape", "view", "squeeze") and (e.args or isinstance(f, ast.Attribute)):
+                # NumPy returns the very same array when it can: an alias, not a copy
+                base = e.args[0] if (e.args and fname.startswith("as")) else (f.value if isinstance(f, ast.Attribute) else None)
+                if fname.startswith("as") and e.args:
+                    base = e.args[0]
+                return R(fi, base, at, path, depth - 1) if base is not None else []
+            if fname in ("items", "values", "keys") and isinstance(f, ast.Attribute) and not e.args:
+                return R(fi, f.value, at, path, depth - 1)
+            if fname in ("enumerate", "zip", "reversed", "sorted", "list", "tuple", "copy", "iter", "set") and e.args:
+                # fresh container / iterator of shared elements
+                if path and path[0] == "[]":
+                    out = []
+                    for a in e.args:
+                        out += R(fi, a, at, path, depth - 1)
+                    return out
                 return []
-            # alias accessor: repo method returning an attribute of its receiver without copy
+            if fname in FRESH_CALLS:
+                return []
             if isinstance(f, ast.Attribute):
-                for tg in self.eng.resolve_call(fi, t):
+                for tg in self.eng.resolve_call(fi, e):
                     if isinstance(tg, FuncInfo):
                         ap = self.alias_accessor(tg)
                         if ap is not None:
-                            return self._roots_term(fi, f.value, ap + path)
-            return []
-        if isinstance(t, ast.BinOp):
-            # xs + ys : fresh list of shared elements
-            if path and path[0] == "[]":
-                return self._roots_term(fi, t.left, path) + self._roots_term(fi, t.right, path)
+                            return R(fi, f.value, at, ap + path, depth - 1)
+                if fname in ("get", "pop", "setdefault") and path is not None:
+                    return R(fi, f.value, at, ("[]",) + path, depth - 1)
             return []
         return []
+
+    def _roots_name(self, fi: FuncInfo, name: str, at: int, path, depth) -> List[Effect]:
+        f = fi
+        first = True
+        while f is not None:
+            flow = self.eng.flow(f)
+            if flow.is_local(name):
+                out = []
+                if first:
+                    defs = flow.reaching(name, at)
+                else:
+                    defs = [d for d in flow.defs if d.name == name]
+                for d in defs:
+                    for r, p in self._roots_def(f, d, path, depth - 1):
+                        out.append((self._param_key2(f, fi, r), p))
+                return out
+            f = f.parent
+            first = False
+        return []
+
+    def _roots_def(self, fi: FuncInfo, d, path, depth) -> List[Effect]:
+        flow = self.eng.flow(fi)
+        if depth <= 0:
+            return []
+        if d.kind == "param":
+            return [(d.name, path)]
+        if d.kind == "assign":
+            v = d.value
+            out = self.roots(fi, v, d.nid, path, depth)
+            if path and path[0] == "[]" and isinstance(v, (ast.List, ast.Dict, ast.Set, ast.ListComp, ast.DictComp, ast.SetComp, ast.Call)):
+                out += self._inserted(fi, d.name, path[1:], depth)
+            return out
+        if d.kind == "aug":
+            out = []
+            for pd in flow.reaching(d.name, d.nid):
+                if pd is not d:
+                    out += self._roots_def(fi, pd, path, depth - 1)
+            if path and path[0] == "[]":
+                out += self.roots(fi, d.value, d.nid, path, depth - 1)
+            return out
+        if d.kind == "for":
+            it = d.value
+            it_node = flow.cfg._foriter.get(id(d.stmt), d.nid)
+            sub = d.extra or ()
+            if isinstance(it, ast.Call) and isinstance(it.func, ast.Name) and it.func.id == "enumerate" and it.args:
+                if sub[:1] == (1,):
+                    return self.roots(fi, it.args[0], it_node, ("[]",) * (len(sub)) + path, depth)
+                return []
+            if isinstance(it, ast.Call) and isinstance(it.func, ast.Name) and it.func.id == "zip" and sub and isinstance(sub[0], int) and sub[0] < len(it.args):
+                return self.roots(fi, it.args[sub[0]], it_node, ("[]",) * len(sub) + path, depth)
+            return self.roots(fi, it, it_node, ("[]",) * (1 + len(sub)) + path, depth)
+        if d.kind == "unpack":
+            return self.roots(fi, d.value, d.nid, ("[]",) * len(d.extra or (0,)) + path, depth)
+        if d.kind == "with":
+            return []
+        return []
+
+    def _inserted(self, fi: FuncInfo, name: str, path, depth) -> List[Effect]:
+        """Objects put into the local container `name` anywhere in the function."""
+        out = []
+        flow = self.eng.flow(fi)
+        for n in own_nodes(fi.node):
+            try:
+                if isinstance(n, ast.Call) and isinstance(n.func, ast.Attribute) and isinstance(n.func.value, ast.Name) and n.func.value.id == name:
+                    if n.func.attr in ("append", "add", "insert", "extend", "setdefault") and n.args:
+                        at = flow.cfg.node_of(n)
+                        for a in n.args[-1:] if n.func.attr != "setdefault" else n.args:
+                            p = (("[]",) + path) if n.func.attr == "extend" else path
+                            out += self.roots(fi, a, at, p, depth - 1)
+                elif isinstance(n, ast.Assign):
+                    for t in n.targets:
+                        if isinstance(t, ast.Subscript) and isinstance(t.value, ast.Name) and t.value.id == name:
+                            at = flow.cfg.node_of(n)
+                            out += self.roots(fi, n.value, at, path, depth - 1)
+                            out += self.roots(fi, t.slice, at, path, depth - 1)  # dict iteration yields the keys
+            except AnalysisError:
+                continue
+        return out
 
     @staticmethod
     def _param_key(owner: FuncInfo, user: FuncInfo, name: str) -> str:
@@ -154,7 +243,7 @@ class Effects:
             except AnalysisError:
                 return
             for root, path in self.roots(fi, obj_expr, at):
-                out.append(((root, path + extra_path), f"{fi.module.relpath}:{node.lineno} {what}"))
+                out.append(((root, path + tuple(extra_path)), f"{fi.module.relpath}:{node.lineno} {what}"))
 
         for n in own_nodes(fi.node):
             if isinstance(n, (ast.Assign, ast.AugAssign, ast.AnnAssign, ast.Delete)):
@@ -174,6 +263,8 @@ class Effects:
                         # in-place update of a mutable reached without copy: only when the value is a container path
                         defs = flow.reaching(t.id, cfg.node_of(n))
                         for d in defs:
+                            if d.kind == "assign" and isinstance(d.value, ast.Call) and _call_name(d.value) in ALIAS_CALLS:
+                                add(d.value, ("<inplace>",), n, f"in-place {src(n)[:40]} on an array obtained with {_call_name(d.value)} (no copy)")
                             if d.kind == "assign" and isinstance(d.value, (ast.Attribute, ast.Name)):
                                 ts = self.eng.infer(d.value, fi)
                                 container = any(x[0] in ("list", "ndarray", "dict") for x in ts) or (
@@ -251,7 +342,7 @@ class Effects:
                         arg = self._bind(callee, node, pname, ctor)
                         if arg is None:
                             continue
-                        effs = [(r, p + path) for r, p in self.roots(fi, arg, at)]
+                        effs = [(r, p + tuple(path)) for r, p in self.roots(fi, arg, at)]
                     for eff in effs:
                         if len(eff[1]) > 8:
                             eff = (eff[0], eff[1][:4] + ("…",) + eff[1][-3:])
